@@ -578,7 +578,7 @@ class ModelGen:
             self.components.append(ent)
         return ent
 
-    def add_twins(self, ent) -> bool:
+    def add_twins(self, ent, same_names: bool = False) -> bool:
         """A name relation: two namespaces that are not nested in each other declare an extern
         of the same simple name (different C++ types), an interface in each refers to its own
         by that simple name (in an in-event and in an out-event), and the component `ent` gets
@@ -594,6 +594,12 @@ class ModelGen:
         first, second = rng.choice(pairs)
         used = {f[-1] for _k, f, _o in self.decls()}
         xname = fresh(rng, used, 'camel')
+        # with `same_names` the two interfaces carry one simple name as well, and so do their
+        # events: everything keyed by a simple name instead of the qualified one confuses them
+        iname = fresh(rng, used | {xname}, 'camel') if same_names else None
+        ev_in, ev_out = fresh(rng, set(), 'camel'), fresh(rng, {xname}, 'camel')
+        if same_names and (iname in first.taken or iname in second.taken or ev_in == ev_out):
+            return False
         made = []
         for node in (first, second):
             if xname in node.taken:
@@ -603,19 +609,32 @@ class ModelGen:
             self.extern_counter += 1
             self._place(node, ext)
             self.externs.append((node.fqn + [xname], ext))
-            ient = self.add_interface(node)
+            if same_names:
+                node.taken.add(iname)
+                itf = M.Interface([iname])
+                self._place(node, itf)
+                ient = (node.fqn + [iname], itf, node)
+                self.interfaces.append(ient)
+            else:
+                ient = self.add_interface(node)
             ifqn, itf, _n = ient
             taken = {t.name[0] for t in itf.types if not isinstance(t, M.Unknown)}
             target = '.'.join(node.fqn + [xname])
-            itf.events.append(M.Event(fresh(rng, taken, 'camel'), 'in', M.Ref(['void']),
+            itf.events.append(M.Event(ev_in if same_names else fresh(rng, taken, 'camel'), 'in',
+                                      M.Ref(['void']),
                                       [M.Formal('qz_a', M.Ref([xname], target), 'in')]))
-            itf.events.append(M.Event(fresh(rng, taken, 'camel'), 'out', M.Ref(['void']),
+            itf.events.append(M.Event(ev_out if same_names else fresh(rng, taken, 'camel'), 'out',
+                                      M.Ref(['void']),
                                       [M.Formal('qz_b', M.Ref([xname], target), 'in')]))
             made.append(ient)
         ptaken = {p.name[0].upper() + p.name[1:] for p in comp.ports} | \
             {p.name[0].lower() + p.name[1:] for p in comp.ports} | \
             {fqn[-1][0].upper() + fqn[-1][1:], fqn[-1][0].lower() + fqn[-1][1:]}
-        for (ifqn, _itf, _n), direction in zip(made, ('provides', 'requires')):
+        directions = ('provides', 'requires')
+        if same_names:
+            # the same event is rerouted on both ports: both on one side
+            directions = rng.choice([('provides', 'provides'), ('requires', 'requires')])
+        for (ifqn, _itf, _n), direction in zip(made, directions):
             ref = self._ref(cnode.fqn, ifqn, 'interfaces')
             if ref is None:
                 return False
